@@ -566,19 +566,29 @@ def gen_op(rng, spec, handles, nonlinear: bool):
         return {"op": "pickle", "h": h, "via": rng.weighted([("pickle", 4), ("deepcopy", 2), ("dill", 1.5), ("saveload", 0.7), ("bytes", 0.7)])}
     if kind == "view":
         how = rng.weighted([("item", 4), ("get_variant", 3), ("iter", 1)])
-        if how in ("item", "iter"):
+        if how == "iter":
             return {"op": "view", "h": h, "idx": [rng.randint(0, nv - 1)], "how": how}
+        if how == "item":       # m[k], k anywhere in -nv .. nv-1 (Python indexing)
+            return {"op": "view", "h": h, "idx": [rng.randint(-nv, nv - 1)], "how": how}
         k = rng.randint(1, min(3, nv + 1))
-        idx = [rng.randint(0, nv - 1) for _ in range(k)]      # duplicates are possible and intended
+        idx = [rng.randint(-nv, nv - 1) if rng.chance(0.3) else rng.randint(0, nv - 1) for _ in range(k)]   # duplicates are possible and intended
         return {"op": "view", "h": h, "idx": idx, "how": "get_variant"}
     if kind == "desc":
         return {"op": "desc", "h": h, "s": "d" + str(rng.randint(0, 99))}
     if kind == "tol":
         return {"op": "tol", "h": h, "key": rng.choice(["eig", "eq"]), "x": 2.0 ** -rng.randint(30, 44)}
     # user errors that the code rejects without touching anything
-    if rng.chance(0.5):
+    if rng.chance(0.35):
         return {"op": "alter", "h": h, "n": 0}
-    return {"op": "view", "h": h, "idx": [nv + rng.randint(0, 2)], "how": "get_variant"}
+    # an index just outside -nv .. nv-1 (off-by-one loop bound, an index kept after shrinking), alone or inside a list
+    out = rng.choice([nv, nv + 1, -nv - 1, -nv - 2, 2 * nv, nv + rng.randint(0, 2)])
+    form = rng.weighted([("item", 3), ("single", 2), ("list", 2)])
+    if form == "item":
+        return {"op": "view", "h": h, "idx": [out], "how": "item"}
+    if form == "single":
+        return {"op": "view", "h": h, "idx": [out], "how": "get_variant"}
+    idx = [rng.randint(0, nv - 1), out]
+    return {"op": "view", "h": h, "idx": rng.shuffle(idx), "how": "get_variant"}
 
 
 def run_case(ctx: Ctx, case: dict, gen_rng=None, n_ops: int = 0, oracles: bool = True):
@@ -627,7 +637,8 @@ def run_case(ctx: Ctx, case: dict, gen_rng=None, n_ops: int = 0, oracles: bool =
             status = "err:bad"
             ctx.count("op_rejected")
         if len(handles) > nh:
-            dfree.append(dfree[tgt] and (op["op"] != "view" or len(set(op["idx"])) == len(op["idx"])))
+            nsrc = handles[tgt].num_variants      # a view does not change its source; -k and N-k name the same variant
+            dfree.append(dfree[tgt] and (op["op"] != "view" or len({k % nsrc for k in op["idx"]}) == len(op["idx"])))
         line.append(text)
         reply.append(status + "#" + dump(handles))
         if not oracles:
@@ -654,6 +665,29 @@ def run_case(ctx: Ctx, case: dict, gen_rng=None, n_ops: int = 0, oracles: bool =
                         ctx.fail("variant-assign-readback", {"spec": spec, "ops": ops[:i]},
                                  f"op #{i - 1} {op}: variant {kk} of handle {tgt} reads {got[kk]!r}, assigned {want!r}")
                         break
+        # oracle 1c: m[k] / get_variant: Python indexing -- an index outside -N .. N-1 names no variant and must be rejected;
+        # an index inside must give exactly that variant's values (variant k IS variant k)
+        if op["op"] == "view":
+            src = before[tgt] if before[tgt] is not None else pub(handles[tgt])
+            N = src["nv"]
+            outside = [k for k in op["idx"] if not (-N <= k < N)]
+            snap = {"spec": spec, "ops": ops[:i]}
+            if outside and status == "ok":
+                ctx.fail("variant-index-out-of-range-accepted", snap,
+                         f"op #{i - 1} {op}: index {outside[0]} on a model with {N} variant(s) returned a model instead of raising IndexError")
+            elif not outside and status != "ok":
+                ctx.fail("variant-view-wrong-variant", snap, f"op #{i - 1} {op}: an in-range index on a model with {N} variant(s) was rejected")
+            elif not outside:
+                got = pub(handles[-1])
+                for j, k in enumerate(op["idx"]):
+                    r = k % N
+                    for key in ("levels", "changes", "params"):
+                        for (n1, v1), (n2, v2) in zip(got[key], src[key]):
+                            if v1[j] != v2[r]:
+                                ctx.fail("variant-view-wrong-variant", snap,
+                                         f"op #{i - 1} {op}: position {j} of the view shows {key}[{n1}] of another variant than variant {k} of {N}")
+                    if got["sol"][j] != src["sol"][r]:
+                        ctx.fail("variant-view-wrong-variant", snap, f"op #{i - 1} {op}: position {j} of the view carries another variant's solution")
         # oracle 2: a fresh copy / pickle has the observables of its source
         if status == "ok" and op["op"] in ("copy", "pickle"):
             a, b = pub(handles[tgt]), pub(handles[-1])
@@ -981,13 +1015,22 @@ def run(ctx: Ctx):
 
 
 def search(ctx: Ctx, seeds):
+    """failing-input search when a tie broke: the oracles alone, seeded by the disagreements; bounded (about 60-90 s)"""
     ctx.tier = "thorough"
-    for s in seeds:
+    for s in seeds[:10]:
         if isinstance(s, dict) and "spec" in s and "ops" in s:
             run_case(ctx, {"spec": s["spec"], "ops": list(s["ops"])})
-    history_stream(ctx, 600, tag="search")
-    portable_stream(ctx, 300)
-    other_models_stream(ctx, 300)
+        elif isinstance(s, dict) and s.get("kind") == "portable":
+            portable_case(ctx, s)
+        elif isinstance(s, dict) and s.get("kind") == "other":
+            other_case(ctx, dict(s, ops=list(s.get("ops", []))))
+        if ctx.failures:
+            return
+    history_stream(ctx, 100, tag="search")
+    if ctx.failures:
+        return
+    portable_stream(ctx, 150)
+    other_models_stream(ctx, 100)
 
 
 def replay(ctx: Ctx, payload, from_corpus=None):
